@@ -8,9 +8,23 @@
    TRANSPOSE of m is applied); [rigid m T X] = T + rotmol(m) X;
    [dist2] = squared distance; [eigen_contract defrel refrel q] = "q is a unit
    vector maximising q^T C q over unit vectors, C = the 4x4 matrix of qtrfit"
-   (what jacobi is trusted to deliver; validated per call by the harness). *)
+   (what jacobi is trusted to deliver; validated per call by the harness).
+
+   Jacobi layer (theorems C15_jacobi_...): a 4x4 matrix is an index function nat->nat->R of
+   which only indices 0..3 matter ([meq] = equal on 0..3 x 0..3, [mmul], [mT],
+   [mI]); [wfst st] = amat, vmat are 4x4 lists of lists and dvec has 4 entries;
+   [st_sym st] = the symmetric matrix the code maintains: diagonal = dvec,
+   off-diagonal = STRICT UPPER triangle of amat (diagonal and lower triangle of
+   amat are never read or written by the rotations); [st_V st] = vmat;
+   [planeJ c s p q] = identity except J_pp = J_qq = c, J_pq = s, J_qp = -s;
+   [A0_of am] = symmetric matrix given by the upper triangle (with diagonal) of
+   the argument of jacobi; [offzero st] = all six strict-upper entries are 0;
+   [qf A r] = r^T A r, [n2 r] = |r|^2, [mv A r] = A r.
+   NOT proved: that the off-diagonal mass reaches the threshold within the 30
+   sweeps (convergence), the effect of the non-zero threshold 1e-12 beyond the
+   residual identity C15_jacobi_exit_residual, and rounding. *)
 From Coq Require Import Reals List ZArith.
-From PV Require Import Model.Quatfit Proofs.Quatfit.
+From PV Require Import Model.Quatfit Proofs.Quatfit Proofs.QuatfitJacobi Proofs.QuatfitExit.
 Import ListNotations.
 Local Open Scope R_scope.
 
@@ -135,6 +149,132 @@ Theorem C15_tetra_120 : forall (l v : pt (A := R)) (c s : R),
   dist2 v' v = 3 * rho2.
 Proof. exact tetra_120. Qed.
 
+(* ---- the Jacobi iteration itself (Proofs/QuatfitJacobi.v, QuatfitExit.v) ---- *)
+
+(* over R the code's (cscl, sscl) lies on the unit circle and is the EXACT
+   annihilating angle for every input with bscl <> 0 (the shortcut branch
+   `abs(dma) + abs(bscl) <= abs(dma)` is dead over R) *)
+Theorem C15_jacobi_angle_exact : forall b dp dq : R, b <> 0 ->
+  let cs := jcs b (dq - dp) in
+  let c := fst cs in let s := snd cs in
+  c * c + s * s = 1 /\ c * s * (dp - dq) + (c * c - s * s) * b = 0.
+Proof. exact jcs_exact. Qed.
+
+(* one rotation of the model (both branches of `if abs(amat[ip][iq]) > 0.0`)
+   is an orthogonal similarity: A' = J^T A J on [st_sym], V' = V J, the pivot
+   entry of A' is 0, the diagonal gains 2 a_pq^2, the diagonal/lower triangle of
+   amat is a frame *)
+Theorem C15_jacobi_rotation_similarity : forall (st : jstate (A := R)) (p q : nat),
+  wfst st -> In (p, q) pairs ->
+  let st' := jrot RA st (p, q) in
+  wfst st' /\
+  exists c s : R,
+    c * c + s * s = 1 /\
+    meq (st_sym st') (mmul (mT (planeJ c s p q)) (mmul (st_sym st) (planeJ c s p q))) /\
+    meq (st_V st') (mmul (st_V st) (planeJ c s p q)) /\
+    st_sym st' p q = 0 /\
+    sum4 (fun i => st_sym st' i i * st_sym st' i i)
+      = sum4 (fun i => st_sym st i i * st_sym st i i) + 2 * (st_sym st p q * st_sym st p q) /\
+    (forall i j, (i < 4)%nat -> (j <= i)%nat -> mget RA (fst (fst st')) i j = mget RA (fst (fst st)) i j).
+Proof. exact jrot_similarity. Qed.
+
+(* the plane rotation is orthogonal: J^T J = J J^T = I *)
+Theorem C15_jacobi_plane_orthogonal : forall (c s : R) (p q : nat),
+  In (p, q) pairs -> c * c + s * s = 1 -> orth (planeJ c s p q).
+Proof. exact planeJ_orth. Qed.
+
+(* trace and Frobenius norm are kept, the off-diagonal mass (sum over i <> j)
+   drops by 2 a_pq^2: the classical Jacobi identity *)
+Theorem C15_jacobi_rotation_masses : forall (st : jstate (A := R)) (p q : nat),
+  wfst st -> In (p, q) pairs ->
+  let st' := jrot RA st (p, q) in
+  trace4 (st_sym st') = trace4 (st_sym st) /\
+  frob2 (st_sym st') = frob2 (st_sym st) /\
+  off2 (st_sym st') = off2 (st_sym st) - 2 * (st_sym st p q * st_sym st p q).
+Proof. exact jrot_masses. Qed.
+
+(* the invariant is kept by ANY sequence of pivots taken from the code's six
+   pairs, and holds at every exit of the sweep loop, for every fuel value
+   (converged, or fuel exhausted): V^T V = V V^T = I and V^T A0 V = A_current *)
+Theorem C15_jacobi_invariant_any_pivots : forall (A0 : fmat) (l : list (nat * nat)) (st : jstate (A := R)),
+  (forall ij, In ij l -> In ij pairs) -> jinv A0 st -> jinv A0 (fold_left (jrot RA) l st).
+Proof. exact jinv_fold. Qed.
+
+Theorem C15_jacobi_invariant : forall (am : mat (A := R)) (nrot : nat), wf4 am ->
+  let st := jsweeps RA nrot (jinit RA am) in
+  wfst st /\ orth (st_V st) /\
+  meq (mmul (mT (st_V st)) (mmul (A0_of am) (st_V st))) (st_sym st).
+Proof. exact jacobi_invariant. Qed.
+
+(* exact exit: columns of V are eigenvectors; the column qtrfit takes after the
+   ascending sort (column 3) is a unit eigenvector of the largest dvec entry and
+   maximises r^T A0 r over all unit r *)
+Theorem C15_jacobi_exit_exact : forall (am : mat (A := R)) (nrot : nat), wf4 am ->
+  let A0 := A0_of am in
+  let st := jsweeps RA nrot (jinit RA am) in
+  offzero st ->
+  let V := st_V st in
+  let d := fun k => st_sym st k k in
+  orth V /\
+  (forall i k, (i < 4)%nat -> (k < 4)%nat -> mmul A0 V i k = d k * V i k) /\
+  let res := jacobi RA am nrot in
+  let q := fun i => mget RA (snd res) i 3 in
+  let lam := vget RA (fst res) 3 in
+  n2 q = 1 /\
+  (forall i, (i < 4)%nat -> mv A0 q i = lam * q i) /\
+  qf A0 q = lam /\
+  (forall k, (k < 4)%nat -> d k <= lam) /\
+  (forall r, n2 r = 1 -> qf A0 r <= qf A0 q).
+Proof. exact jacobi_exit_exact. Qed.
+
+(* the eigen-solver contract is a THEOREM for every call whose iteration stops
+   with zero off-diagonal part *)
+Theorem C15_jacobi_eigen_contract : forall (defrel refrel : list (pt (A := R))) (nrot : nat),
+  offzero (jsweeps RA nrot (jinit RA (cm_rows RA (cmat RA defrel refrel)))) ->
+  eigen_contract defrel refrel (qtrfit_quat RA nrot defrel refrel).
+Proof. exact jacobi_eigen_contract. Qed.
+
+(* C15_fit_exact_image with the contract hypothesis replaced by "jacobi stops
+   with zero off-diagonal part" *)
+Theorem C15_fit_exact_image_jacobi : forall (defs : list (pt (A := R))) (p : quat (A := R)) (T atom : pt (A := R)),
+  qnorm2 RA p = 1 -> noncollinear defs ->
+  let refs := map (rigid (q2mat RA p) T) defs in
+  let defrel := snd (center RA defs) in
+  let refrel := snd (center RA refs) in
+  offzero (jsweeps RA NROT (jinit RA (cm_rows RA (cmat RA defrel refrel)))) ->
+  (forall x, In x defrel ->
+     rot1 RA (q2mat RA (qtrfit_quat RA NROT defrel refrel)) x = rot1 RA (q2mat RA p) x) /\
+  find_coordinates RA (length defs) refs defs atom = Some (rigid (q2mat RA p) T atom).
+Proof. exact fit_exact_image_jacobi. Qed.
+
+(* inexact exit (any fuel, no hypothesis): column k of V misses being an
+   eigenvector for S_kk by exactly the off-diagonal mass of column k of the
+   current matrix S, which is at most half the total off-diagonal mass *)
+Theorem C15_jacobi_exit_residual : forall (am : mat (A := R)) (nrot k : nat), wf4 am -> (k < 4)%nat ->
+  let A0 := A0_of am in
+  let st := jsweeps RA nrot (jinit RA am) in
+  let V := st_V st in
+  let S := st_sym st in
+  sum4 (fun i => (mv A0 (fun j => V j k) i - S k k * V i k) * (mv A0 (fun j => V j k) i - S k k * V i k))
+  = sum4 (fun m => if (m =? k)%nat then 0 else S m k * S m k)
+  /\ 2 * sum4 (fun m => if (m =? k)%nat then 0 else S m k * S m k) <= off2 S.
+Proof. exact jacobi_exit_residual. Qed.
+
+(* non-vacuity of the exit hypothesis: 6-point template with diagonal second
+   moments, turned by 180 degrees about x and translated by (10,-20,30): the
+   qtrfit matrix is diag(-24, 28, -12, 8), the iteration stops with zero
+   off-diagonal part, the sort moves column 1 to position 3, and the image of
+   (1,2,3) is (11,-22,27) *)
+Example C15_jacobi_nonvacuous :
+  qnorm2 RA jex_p = 1 /\ noncollinear jex_defs /\
+  (let refs := map (rigid (q2mat RA jex_p) jex_T) jex_defs in
+   let defrel := snd (center RA jex_defs) in
+   let refrel := snd (center RA refs) in
+   offzero (jsweeps RA NROT (jinit RA (cm_rows RA (cmat RA defrel refrel)))) /\
+   c11 (cmat RA defrel refrel) = 28 /\ c00 (cmat RA defrel refrel) = -24 /\
+   find_coordinates RA 6 refs jex_defs (1, 2, 3) = Some (11, -22, 27)).
+Proof. exact jacobi_nonvacuous. Qed.
+
 (* non-vacuity: a 4-point template, the 120-degree rotation about (1,1,1) and a
    translation meet every hypothesis of C15_fit_exact_image (a unit maximiser
    exists), the image of (1,2,3) is (12,-17,31); qchichange by the angle with
@@ -161,3 +301,14 @@ Print Assumptions C15_torsion_addition.
 Print Assumptions C15_torsion_addition_angles.
 Print Assumptions C15_tetra_120.
 Print Assumptions C15_nonvacuous.
+Print Assumptions C15_jacobi_angle_exact.
+Print Assumptions C15_jacobi_rotation_similarity.
+Print Assumptions C15_jacobi_plane_orthogonal.
+Print Assumptions C15_jacobi_rotation_masses.
+Print Assumptions C15_jacobi_invariant_any_pivots.
+Print Assumptions C15_jacobi_invariant.
+Print Assumptions C15_jacobi_exit_exact.
+Print Assumptions C15_jacobi_eigen_contract.
+Print Assumptions C15_fit_exact_image_jacobi.
+Print Assumptions C15_jacobi_exit_residual.
+Print Assumptions C15_jacobi_nonvacuous.
